@@ -51,9 +51,10 @@ PROPS = {
         "not_covered": ["byte equality across print targets", "header/footer contents", "print_configuration figures"],
     },
     "C12": {
-        "units": ["qdldl_perm"],
-        "scope": "LDL engine: permutation validation (Ok <=> valid permutation, result is the inverse)",
-        "assumptions": ["p.len() < usize::MAX (a Vec<usize> cannot be that long)"],
+        "units": ["qdldl_perm", "ldl_wrapper"],
+        "scope": "LDL engine: permutation validation (Ok <=> valid permutation, result is the inverse); the back-end adaptor reports success only for a completed factorisation (errors are never swallowed)",
+        "assumptions": ["p.len() < usize::MAX (a Vec<usize> cannot be that long)",
+                        "unit ldl_wrapper: the engine's refactor is assumed to return Ok exactly when the factorisation completed; a documented panic (.unwrap() on the engine's Err) is modelled as divergence (rule R13)"],
         "trusted_base": ["prelude/std_assumed.rs"],
         "not_covered": ["P*A*P' = L*D*L' to backward-stable accuracy and solve accuracy (floating-point error analysis, outside the family)"],
     },
@@ -93,7 +94,13 @@ PROPS = {
                         "nvars of a GenPowerConeT does not overflow usize",
                         "the code's deliberate margin: rows with b in ((1-10eps)*B, B) are dropped as well (DESIGN O4); the contract states the threshold the code documents"],
         "trusted_base": ["prelude/float_opaque.rs", "prelude/vecmath_assumed.rs"],
-        "not_covered": ["reduce_cones / select_rows (iterator adaptors with closures: Kani bounded harnesses, thorough tier)", "capping of b in DefaultProblemData::new (scalarop closure)",
+        "kani": [
+            {"harness": "problemdata_new_caps_and_drops", "quick": False, "complete": False,
+             "bound": "one NonnegativeConeT(1) row + one SecondOrderConeT(2) block, n=1, concrete A pattern, symbolic non-NaN right-hand sides b0,b1 and symbolic presolve_enable, unwind 8",
+             "what": "DefaultProblemData::new: every internal rhs entry <= bound (capped); the NN row is dropped iff presolve is on and b0 > (1-10eps)*bound; SOC rows are never dropped and keep min(b1,bound); presolver stored iff a row was dropped",
+             "covers": ["new", "try_presolver", "reduce_cones", "select_rows"], "timeout": 900},
+        ],
+        "not_covered": ["reduce_cones / select_rows / capping of b in DefaultProblemData::new beyond the bounded Kani harness (iterator adaptors with closures are outside the Verus subset)",
                         "that the reduced problem's solution equals the hand-reduced one (same data => C01 on the reduced data)"],
     },
     "C15": {
